@@ -117,7 +117,22 @@ pub fn evaluate(dt: dust_dds::xtypes::dynamic_type::DynamicType<'static>, t: &Ty
                 }
             }
             let (cp, e) = best.unwrap();
-            let construct = refenc::construct_at(&e.regions, cp.min(e.bytes.len().saturating_sub(1)));
+            // a differing DHEADER / NEXTINT value only says that something inside has another size:
+            // attribute the difference to the first differing byte outside such length words
+            let is_len_word = |at: usize| -> bool {
+                e.regions.iter().any(|(o, tag)| {
+                    (tag.ends_with("_dheader") && at >= *o && at < *o + 4) || (*tag == "emheader" && at >= *o + 4 && at < *o + 8)
+                })
+            };
+            let mut at = cp;
+            let n = e.bytes.len().min(dust.len());
+            while at < n && (e.bytes[at] == dust[at] || is_len_word(at)) {
+                at += 1;
+            }
+            if at >= n {
+                at = cp;
+            }
+            let construct = refenc::construct_at(&e.regions, at.min(e.bytes.len().saturating_sub(1)));
             let decodable = [true, false]
                 .iter()
                 .any(|r| refenc::decode_top(t, &dust, *r).map(|d| d.val == *v).unwrap_or(false));
@@ -487,9 +502,9 @@ pub fn run(a: &Cli) -> Report {
         let probes = if seen >= 2 {
             0
         } else if matches!(death, Death::Hang) {
-            4
+            0
         } else {
-            30
+            20
         };
         report_death(rep, &dir2, &t, &v, r, d, &death.class(), &death.detail(), probes);
     });
